@@ -35,3 +35,21 @@ package badger
 //@   precall badger\.rootsMetadata\)\.save$ :: rootsChanged
 //@   note roots metadata: a root is dropped from the version's roots metadata only together with the "changed" flag that makes Finalize persist the metadata - whatever the write-log setting - so that the database never keeps claiming a root whose nodes it has just deleted
 //@   note within the update list of one finalized root, every node the root inserted is marked "not lone" when the list has been processed, also when the same hash occurs earlier or later in the list as a removal (a removed and re-created node). NOT covered: that the mark survives the processing of the other roots of the version, and everything about what the lists contain
+
+// ---- Commit (C06): the derived-root link that protects shared nodes from Prune ----
+
+//@ ghost var GSavedMeta *rootsMetadata
+
+//@ func rootsMetadata.save
+//@   props C06
+//@   trusted
+//@   requires rm != nil
+//@   modifies GSavedMeta
+//@   ensures err == nil ==> GSavedMeta == rm
+//@   note trusted: writes the CBOR encoding of the metadata under the version's key into the given transaction; the ghost variable only remembers which metadata object was written last
+
+//@ func badgerBatch.Commit
+//@   props C06
+//@   requires ba != nil && ba.db != nil
+//@   precall badger/v4\.Txn\)\.CommitAt$ :: !ba.chunk && ba.oldRoot.Hash != hash.EmptyHash() ==> defined(oldRootsMeta) && oldRootsMeta != nil && GSavedMeta == oldRootsMeta && inDom(oldRootsMeta.Roots, oldRootHash) && len(oldRootsMeta.Roots[oldRootHash]) >= 1 && oldRootsMeta.Roots[oldRootHash][len(oldRootsMeta.Roots[oldRootHash])-1] == rootHash
+//@   note whenever a non-chunk batch with a non-empty old root reaches the metadata commit, the new root has been appended to the old root's derived-root list - also when both hashes are equal (an unchanged root carried into the next version) - and that metadata object is the one saved last. Prune treats a root without derived roots as "lone" and deletes the nodes it created, so a missing link makes a LATER finalized version unreadable once the earlier one is pruned
